@@ -4,7 +4,10 @@ from fractions import Fraction as Fr
 
 import numpy as np
 
+import os
+
 from harness import common as C
+from translate import c13 as T
 
 ID = 'C13'
 PROPS_V = 'C13/Props.v'
@@ -30,6 +33,17 @@ ASSUMPTIONS = [
     'every trace is one weighted fit (the mask is not fed back into the fit) -- modelled as such',
     "TraceSet(func='chebyshev_split') cannot be evaluated (not in TraceSet._func_map); excluded from trace-set cases",
 ]
+
+def translate(ctx):
+    text, info = T.generate(C.REPO)
+    path = os.path.join(C.COQ, 'Generated', 'Trace.v')
+    if text is not None:
+        info['changed'] = C.write_if_changed(path, text)
+    else:
+        info['note'] = ('source shape not recognised; the previous Generated/Trace.v is kept and the correspondence run '
+                        'alone ties model to code')
+    return {'Trace': info}
+
 
 FUNCS = ['legendre', 'chebyshev', 'poly', 'chebyshev_split']
 FTERM = {'legendre': 'Legendre', 'chebyshev': 'Chebyshev', 'poly': 'Poly', 'chebyshev_split': 'ChebSplit'}
